@@ -508,6 +508,48 @@ Section Proofs.
     - inversion E. reflexivity.
   Qed.
 
+  (* ---------- PullID ---------- *)
+  Definition for_id (id : string) (c : cchange) : bool := String.eqb (cc_id c) id.
+  Definition ends (c : cchange) : bool :=
+    match cc_kind c, cc_new c with KRemove, _ => true | _, None => true | _, Some _ => false end.
+
+  (* changes to other items are invisible to a single-item subscription *)
+  Theorem pull_id_ignores_other_ids id (cs : list cchange) :
+    pull_id_from id cs = pull_id_from id (filter (for_id id) cs).
+  Proof.
+    induction cs as [|c r IH]; simpl; [reflexivity|]. unfold for_id at 1.
+    destruct (String.eqb (cc_id c) id) eqn:E; simpl.
+    - rewrite E. simpl. destruct (cc_kind c); destruct (cc_new c); try reflexivity; rewrite IH; reflexivity.
+    - exact IH.
+  Qed.
+
+  (* it ends (its channel is closed) exactly when a change to the item removes it, and everything
+     delivered precedes that change *)
+  Theorem pull_id_closed_iff id (cs : list cchange) :
+    snd (pull_id_from id cs) = existsb (fun c => for_id id c && ends c) cs.
+  Proof.
+    induction cs as [|c r IH]; simpl; [reflexivity|]. unfold for_id, ends.
+    destruct (String.eqb (cc_id c) id); simpl; [|exact IH].
+    destruct (cc_kind c); destruct (cc_new c); simpl; try reflexivity;
+      destruct (pull_id_from id r); simpl in *; exact IH.
+  Qed.
+
+  Theorem pull_id_delivers_values id (cs : list cchange) :
+    (List.length (fst (pull_id_from id cs)) <= List.length (filter (for_id id) cs))%nat /\
+    Forall (fun v => exists c, In c cs /\ for_id id c = true /\ cc_new c = Some (vc_value v) /\ cc_time c = vc_time v)
+           (fst (pull_id_from id cs)).
+  Proof.
+    induction cs as [|c r [IH1 IH2]]; simpl; [split; [lia|constructor]|]. unfold for_id at 1 3.
+    destruct (String.eqb (cc_id c) id) eqn:E; simpl.
+    - destruct (cc_kind c) eqn:K; destruct (cc_new c) eqn:N; simpl; try (split; [lia|constructor]);
+        destruct (pull_id_from id r) as [vs cl]; simpl in *;
+        (split; [lia|]); (constructor;
+          [exists c; repeat split; auto; unfold for_id; exact E
+          |eapply Forall_impl; [|exact IH2]; intros v (c' & H1 & H2 & H3 & H4); exists c'; auto]).
+    - split; [exact IH1|]. eapply Forall_impl; [|exact IH2].
+      intros v (c' & H1 & H2 & H3 & H4). exists c'. auto.
+  Qed.
+
   (* ---------- Value.Pull and the equivalence (C04 / C16 resource clause) ---------- *)
   Notation vevent := (vevent M).
   Notation vchange := (vchange M).
